@@ -1008,7 +1008,10 @@ def contains(it, container, x):
             it.raise_(TypeError, "'in <string>' requires string as left operand")
         return z3.Contains(Py.s(c), Py.s(x))
     if it.branch(z3.Or(Py.is_list(c), Py.is_tuple(c), Py.is_nodelist(c))):
-        s = S.seq_items(c)
+        s = z3.simplify(S.seq_items(c))
+        n = concrete_len(s)
+        if n is not None:
+            return z3.Or(*[S.py_eq(z3.simplify(s[i]), x) for i in range(n)]) if n else z3.BoolVal(False)
         r = seq_contains_py(s, x)
         # facts: empty has nothing; singleton/unit membership; element at a known index is a member
         it.assume(z3.Implies(z3.Length(s) == 0, z3.Not(r)))
@@ -1087,7 +1090,7 @@ def equal(it, a, b):
     return S.py_eq(ta, tb)
 
 
-_SCALAR_HEADS = {"none", "bool", "int", "float", "str", "undef", "obj", "pattern", "match", "dict", "nodelist"}
+_SCALAR_HEADS = {"none", "bool", "int", "float", "str", "undef", "obj", "pattern", "match", "nodelist"}
 
 
 def add_eq_facts(it, ta, tb):
@@ -1102,6 +1105,10 @@ def add_eq_facts(it, ta, tb):
         if not it.check(guard):
             continue
         for f in S.eq_unfold_facts(acc(ta), acc(tb)):
+            it.assume(z3.Implies(guard, f))
+    guard = z3.And(Py.is_dict(ta), Py.is_dict(tb))
+    if it.check(guard):
+        for f in S.dict_eq_unfold_facts(ta, tb):
             it.assume(z3.Implies(guard, f))
 
 
